@@ -204,6 +204,27 @@ func (sc *collection) doBuild(ctx context.Context) (Provider, error) {
 		}
 	}
 
+	// A dependency on a group is a dependency on every member of that group:
+	// give the group its own node whose dependencies are the members, so that
+	// cycle detection and creation order see through it.
+	for groupKey, members := range sc.groups {
+		deps := make([]*reflection.Dependency, 0, len(members))
+		for _, member := range members {
+			if member != nil {
+				deps = append(deps, &reflection.Dependency{Type: member.Type, Key: member.Key, Group: member.Group})
+			}
+		}
+
+		groupNode := &Descriptor{Type: groupKey.Type, Group: groupKey.Group, Lifetime: Transient, Dependencies: deps, MultiReturnIndex: -1}
+		if err := g.AddProviderDeferred(groupNode); err != nil {
+			return nil, &BuildError{
+				Phase:   "graph",
+				Details: fmt.Sprintf("failed to add group %v", formatType(groupKey.Type)),
+				Cause:   err,
+			}
+		}
+	}
+
 	// Phase 2: Validate graph (cycles detected here, not per-add)
 	if err := g.DetectCycles(); err != nil {
 		return nil, &BuildError{
@@ -731,6 +752,14 @@ func (c *collection) validateLifetimes() error {
 
 			depKey := instanceKey{Type: dep.Type, Key: dep.Key, Group: dep.Group}
 			depLifetime, ok := lifetimes[depKey]
+			if dep.Group != "" && dep.Key == nil {
+				// A group dependency conflicts if any member is scoped
+				for _, member := range c.groups[GroupKey{Type: dep.Type, Group: dep.Group}] {
+					if member != nil && member.Lifetime == Scoped {
+						depLifetime, ok = Scoped, true
+					}
+				}
+			}
 			if !ok {
 				continue
 			}
